@@ -26,6 +26,8 @@ def run(prog, chk):
     ]
     chk.decided += ["whether the UFO defines glyph categories at all is decided on public.openTypeCategories as stored: getOpenTypeCategories hands out what OpenTypeCategories.load read, the "
                     "restriction to exported glyphs comes after that decision (a map that only names non-exported glyphs still means 'categories are defined': no guessing from anchors) (R18.7)"]
+    chk.decided += ["variable cursive / caret anchors: every source that has the anchor contributes its own value at its own location - a master whose anchor happens to equal the default's is still "
+                    "pinned (R18.8 = R10.2)"]
     chk.not_decided += ["the values read back from the compiled GDEF/GPOS", "script direction data (unicodedata)"]
     chk.guard(r181, prog, chk)
     chk.guard(r182, prog, chk)
@@ -33,6 +35,8 @@ def run(prog, chk):
     chk.guard(r184, prog, chk)
     chk.guard(r185, prog, chk)
     chk.guard(r187, prog, chk)
+    from .c10 import r102
+    chk.guard(r102, prog, chk, "R18.8")
     from .rounding import check_no_truthiness_on_coordinates
     n = check_no_truthiness_on_coordinates(prog, chk, "R18.6", [GDEFW_MOD, CURS_MOD, "ufo2ft.featureWriters.baseFeatureWriter"])
     need(n >= 20, "truthiness scan found too few tests")
@@ -483,6 +487,9 @@ def r187(prog, chk):
 
 
 MUTANTS = [
+    M("sources whose anchor equals the default's are left out of the variable scalar (seeded C18l)", "ufo2ft/featureWriters/baseFeatureWriter.py", "BaseFeatureWriter._getAnchor",
+      "if anchor.name == anchorName:\n    location = get_userspace_location(designspace, source.location)\n    x_value.add_value(location, otRound(anchor.x))\n    y_value.add_value(location, otRound(anchor.y))\n    found = True",
+      "if anchor.name == anchorName and (source is designspace.findDefault() or (anchor.x, anchor.y) != (0, 0)):\n    location = get_userspace_location(designspace, source.location)\n    x_value.add_value(location, otRound(anchor.x))\n    y_value.add_value(location, otRound(anchor.y))\n    found = True", rule="R18.8"),
     M("categories restricted to exported glyphs before the 'are categories defined' decision (seeded C18k)", "ufo2ft/featureWriters/baseFeatureWriter.py", "BaseFeatureWriter.getOpenTypeCategories",
       "return OpenTypeCategories.load(self.context.font)",
       "categories = OpenTypeCategories.load(self.context.font)\nglyphSet = self.context.glyphSet\nreturn OpenTypeCategories(*(frozenset((n for n in names if n in glyphSet)) for names in categories))", rule="R18.7"),
